@@ -51,6 +51,19 @@ func genProgram(t *rapid.T, hooked bool) program {
 		}
 		p.Producers = append(p.Producers, steps)
 	}
+	if p.NObj >= 2 && rapid.IntRange(0, 2).Draw(t, "chains") == 0 {
+		for i, n := 0, rapid.IntRange(1, 2).Draw(t, "nChains"); i < n; i++ {
+			from := rapid.IntRange(0, p.NObj-1).Draw(t, "chainFrom")
+			to := rapid.IntRange(0, p.NObj-2).Draw(t, "chainTo")
+			if to >= from {
+				to++
+			}
+			p.Chains = append(p.Chains, chain{From: from, To: to, At: rapid.SampledFrom([]string{"write", "done"}).Draw(t, "chainAt")})
+		}
+		if p.Cfg.QueueSize < p.NObj {
+			p.Cfg.QueueSize = p.NObj // see chain: the writer goroutine must never block on its own queue
+		}
+	}
 	p.EarlyStop = rapid.IntRange(0, 5).Draw(t, "earlyStop") == 0
 	p.SecondStop = rapid.SampledFrom([]string{"none", "none", "concurrent", "after"}).Draw(t, "secondStop")
 	total := p.totalEnqueues()
@@ -103,7 +116,7 @@ func runCase(t *rapid.T, check string, p program) {
 	}
 }
 
-const ruleFree = "rapid draws queue size {0,1,2,3,4,8}, batch size 1..6, batch time-out 0.2..20 ms, 1..8 objects, 1..4 producers x 1..9 steps (bump object version + Enqueue, Gosched, sleep, Flush), an optional Stop before anything, the instant of the main StopBatchWriter (after the k-th Enqueue returned, k=1 often, or after all producers), an optional second Stop (concurrent / afterwards). Goroutines run free; every Enqueue/Stop/BatchWrite/Commit/BatchWriteDone is stamped with a logical clock and the history invariants of C08 are judged. Non-trivial = Stop was invoked while at least one accepted object had not been written yet (a BatchWrite happened after Stop's invocation)"
+const ruleFree = "rapid draws queue size {0,1,2,3,4,8}, batch size 1..6, batch time-out 0.2..20 ms, 1..8 objects, 1..4 producers x 1..9 steps (bump object version + Enqueue, Gosched, sleep, Flush), in a third of the programs 1..2 objects whose first BatchWrite / BatchWriteDone call-back enqueues another object from the writer goroutine (queue then holds every object); even versions are written as Delete+Set, an optional Stop before anything, the instant of the main StopBatchWriter (after the k-th Enqueue returned, k=1 often, or after all producers), an optional second Stop (concurrent / afterwards). Goroutines run free; every Enqueue/Stop/BatchWrite/Commit/BatchWriteDone is stamped with a logical clock and the history invariants of C08 are judged. Non-trivial = Stop was invoked while at least one accepted object had not been written yet (a BatchWrite happened after Stop's invocation)"
 
 func TestBatchedWriterPrograms(t *testing.T) {
 	const check = "batchedwriter_programs"
